@@ -544,13 +544,18 @@ def processInner (o : Opts) (base : Int) (codec : Nat) : St → List Msg → St
     let (s', ok) := processMessage o s m'
     if ok then processInner o base codec s' ms else s'
 
+/-- `fp.Err = …` when the inner walk left an error -/
+def setErr (s : St) : Option Err → St
+  | some e => { s with err := some e }
+  | none => s
+
 /-- `processV0OuterMessage` / `processV1OuterMessage`; `none` = panic -/
 def processOuter (o : Opts) (s : St) (m : Msg) (inner : Inner) : Option St :=
   let codec := m.attrs % 4
   if codec = 0 then some (processMessage o s m).1 else
   if !inner.decompOk then some { s with err := some .decompress } else
   -- the inner walk leaves its error in fp.Err, then the collected messages are still processed
-  let s := match inner.err with | some e => { s with err := some e } | none => s
+  let s := setErr s inner.err
   if inner.msgs.isEmpty then (if inner.panic then none else some s) else
   if inner.panic then none else
   if m.isV1 then
